@@ -26,6 +26,7 @@ class Out:
     # kept: random sequences (tag r) and sweeps (tag w); the enumerated products are the same for every seed
     random_only = False
     skip = False
+    nid = 0
 
     def case(self, m0=0, m1=0, s0=0, s1=0, eq="lawful", tag="c"):
         self.skip = self.random_only and tag not in ("r", "w")
